@@ -40,14 +40,15 @@ INV_WHAT = {
     "DiskBinlogSound": "the binlog files do not hold a prefix of what was appended (or lost fsynced records)",
     "CleanCloseComplete": "after a clean Close the database does not hold the whole binlog",
 }
-INFRA_EVENTS = ("Hung", "DiskErr")
+# events that mean the driver (or the engine) stopped working rather than misbehaved: undecided, with the log kept
+INFRA_EVENTS = ("Hung", "DiskErr", "ChildErr", "ChildExit", "AppendErr", "BlRunErr")
 # actions that belong to another role / durability mode / the S->I instance
 NOT_IN_EVERY_INSTANCE = ("DoWrite", "DoWriteLazy", "DoNowBegin", "DoNowFinish", "DoWriteFail", "DoWriteReplica", "ExtAppend",
                          "TxCommit", "BlWrite", "BlSync", "BlCommit", "ReplayDone", "Desync", "ReadCommitLow", "Close",
                          "DoWriteCore", "DoWriteLazyCore", "DoNowBeginCore", "DoNowFinishCore", "DoWriteFailCore",
                          "DoWriteReplicaCore", "ExtAppendCore", "TxCommitCore", "BlWriteCore", "BlSyncCore", "BlCommitCore",
-                         "ReplayDoneCore", "DesyncCore", "ReadCommitLowCore", "CloseCore", "DoWriteBase", "DoWriteLazyBase",
-                         "DoNowBeginBase", "DoWriteFailBase", "TxCommitEffect", "ViewA", "ViewCore", "DoRead", "DoReadCore")
+                         "ReplayDoneCore", "DesyncCore", "ReadCommitLowCore", "CloseCore", "DoAppendBase", "DoQueueEffect", "DoQueue", "DoQueueCore",
+                         "DoWriteFailBase", "TxCommitEffect", "ViewA", "ViewCore", "DoRead", "DoReadCore")
 
 
 def tlc_many(ctx, jobs):
@@ -149,7 +150,9 @@ def validate_mode(ctx, mode, path, stage):
             except Exception:
                 ev = {}
             if ev.get("ev") in INFRA_EVENTS:
-                raise Infra("harness problem in %s trace: %s" % (mode, json.dumps(ev)[:500]))
+                a, b = run_of(lines, idx)
+                keep = ctx.save("stopped_%s.ndjson" % mode, "\n".join(lines[a:b]) + "\n")
+                raise Infra("a child process stopped with an error in a %s run (%s): %s" % (mode, keep, json.dumps(ev)[:600]))
             if tv.violated not in ("postcondition",):
                 ctx.save("tlc_trace_error_%s.log" % mode, tv.out[-20000:])
                 raise Infra("trace validation failed with %s" % tv.violated)
@@ -195,9 +198,9 @@ def _run(ctx, scratch):
         return (("SqliteEngineMC", cfg), dict(workers=W, timeout=6000 if th else 1500, heap="6g", coverage=cov,
                                             name=name, constants=consts))
     if th:
-        jobs = [mc("SqliteEngine_mc_big.cfg", "MC WaitCommit master (4 writes, 1 failing, 2 readers, 1 crash)", True),
+        jobs = [mc("SqliteEngine_mc_big.cfg", "MC WaitCommit master (4 writes, 1 failing, 2 readers, 2 crashes)", True),
                 mc("SqliteEngine_mc_mid.cfg", "MC WaitCommit master (3 writes, 1 failing, 2 readers, 2 crashes, crc32 records)", True),
-                mc("SqliteEngine_nowait_big.cfg", "MC NoWaitCommit master (4 writes, 1 failing, 2 readers, 1 crash)", True),
+                mc("SqliteEngine_nowait_big.cfg", "MC NoWaitCommit master (4 writes, 1 failing, 2 readers, 2 crashes)", True),
                 mc("SqliteEngine_replica_big.cfg", "MC replica (4 writes, 1 reader, 1 crash, crc32 records)", True),
                 live]
     else:
